@@ -91,6 +91,16 @@ var (
 // envOf builds environment id. Every environment has the same shape and the same static
 // types per path; only the values differ (signs, zeros, empties, truthiness).
 func envOf(id int) map[string]any {
+	m := envOf0(id)
+	if id != structEnv {
+		for k, v := range ptrData(id % nEnvs) { // pointer-typed data (ptr_test.go)
+			m[k] = v
+		}
+	}
+	return m
+}
+
+func envOf0(id int) map[string]any {
 	type row struct {
 		a, b, z, n, k, x, age, inx, uage int
 		f, g, zf, rate, score            float64
@@ -109,7 +119,7 @@ func envOf(id int) map[string]any {
 		return structModel()
 	}
 	if id == fnEnv {
-		m := envOf(0)
+		m := envOf0(0)
 		for k, v := range fnVars {
 			m[k] = v
 		}
